@@ -1,5 +1,6 @@
-import flags_check
+import flags_check, latency_check
 
 CHECKS = {
     "C17": flags_check.run,
+    "C18": latency_check.run,
 }
